@@ -7,7 +7,7 @@ G3 no in-place mutation can reach a reference model (which aliases the annotatio
 """
 import ast
 
-from ..engine.program import AnalysisError, dotted, src, walk_no_nested, call_name, enclosing_function
+from ..engine.program import AnalysisError, dotted, src, walk_no_nested, call_name, enclosing_function, enclosing_stmt
 from ..engine import flow
 
 TP = "src/transcript_printer.py"
@@ -304,7 +304,76 @@ def g4(prog, ctx):
         ctx.ok("G4", "%s:%d" % (GMC, j.lineno), "genes merged only for scores above a positive threshold")
 
 
+def g5(prog, ctx):
+    """A reference transcript enters the model storage at most once per chromosome task (the registry outlives the constructor objects
+    that handle the sub-regions of one chromosome)."""
+    GMC_ = "src/graph_based_model_construction.py"
+    cls = prog.cls(GMC_, "GraphBasedModelConstructor")
+    meths = prog.methods_of(cls, inherited=False)
+    REG = "detected_known_isoforms"
+
+    def not_in_registry(node, key, stop):
+        for atom, pol in flow.guard_facts(node, stop):
+            if isinstance(atom, ast.Compare) and len(atom.ops) == 1 and src(atom.left) == key and src(atom.comparators[0]).endswith("." + REG):
+                if (isinstance(atom.ops[0], ast.In) and not pol) or (isinstance(atom.ops[0], ast.NotIn) and pol):
+                    return True
+        return False
+    n = 0
+    for name, f in sorted(meths.items()):
+        for c in walk_no_nested(f):
+            if not (isinstance(c, ast.Call) and isinstance(c.func, ast.Attribute) and c.func.attr == "transcript_from_reference" and c.args):
+                continue
+            n += 1
+            key = src(c.args[0])
+            st = enclosing_stmt(c)
+            blk = getattr(st._parent, "body", []) if st in getattr(st._parent, "body", []) else getattr(st._parent, "orelse", [])
+            registers = any(isinstance(x, ast.Expr) and isinstance(x.value, ast.Call) and src(x.value.func).endswith("." + REG + ".add")
+                            and src(x.value.args[0]) == key for x in blk)
+            if not registers:
+                ctx.fail("G5", c, "GraphBasedModelConstructor." + name, src(st)[:90], "a reference transcript model is created here but its id is not "
+                         "added to %s in the same block: a later sub-region of the chromosome reports it again" % REG)
+                continue
+            if not_in_registry(c, key, f):
+                ctx.ok("G5", "%s:%d" % (GMC_, c.lineno), "%s: reference model of %s created only if it is not in %s, then registered" % (name, key, REG))
+                continue
+            # provenance: key iterates a table whose every insertion is made under the registry test
+            ok_prov = False
+            loops = [l for l in flow.enclosing_loops(c) if isinstance(l, ast.For) and src(l.target) == key]
+            if loops:
+                it = loops[0].iter
+                tbl = src(it.func.value) if isinstance(it, ast.Call) and isinstance(it.func, ast.Attribute) and it.func.attr == "keys" else src(it)
+                ins = []
+                for name2, f2 in meths.items():
+                    for x in walk_no_nested(f2):
+                        if isinstance(x, ast.Subscript) and src(x.value) == tbl.split(".")[-1] and \
+                                (isinstance(x.ctx, ast.Store) or (isinstance(getattr(x, "_parent", None), ast.Attribute)
+                                                                  and x._parent.attr in ("append", "add", "extend"))):
+                            ins.append((f2, x))
+                ok_prov = bool(ins) and all(not_in_registry(x, src(x.slice), f2) for f2, x in ins)
+            if ok_prov:
+                ctx.ok("G5", "%s:%d" % (GMC_, c.lineno), "%s: %s ranges over a table filled only for ids that are not in %s" % (name, key, REG))
+            else:
+                ctx.fail("G5", c, "GraphBasedModelConstructor." + name, src(st)[:90],
+                         "a reference transcript model for `%s` is created and appended without a test that the id is not yet in %s (neither "
+                         "here nor where the table it iterates is filled): when the chromosome is processed in several sub-regions and the "
+                         "transcript has reads in two of them, it is written twice to transcript_models.gtf" % (key, REG))
+    ctx.floor("G5", "sites creating reference transcript models", n, 3)
+    # the registry is reset once per chromosome task, not per sub-region
+    f = prog.func("src/dataset_processor.py", "construct_models_in_parallel")
+    if not any(isinstance(st, ast.Assign) and src(st.targets[0]).endswith("." + REG) and src(st.value) == "set()" for st in f.body):
+        ctx.fail("G5", f, "construct_models_in_parallel", REG, "the registry of reported reference transcripts is not reset at the start of the chromosome task")
+    for name, fm in meths.items():
+        for st in walk_no_nested(fm):
+            if isinstance(st, ast.Assign) and any(src(t).endswith("." + REG) for t in st.targets):
+                ctx.fail("G5", st, "GraphBasedModelConstructor." + name, src(st), "the registry is re-initialised inside the constructor class: it "
+                         "forgets what earlier sub-regions of the chromosome already reported")
+
+
 def run(prog, ctx):
+    ctx.rule("G5", "every creation of a reference transcript model is followed by registering its id in detected_known_isoforms in the "
+                   "same block and is protected by `id not in registry` - as a dominating guard, or because the table its id ranges over is "
+                   "filled only under that test; the registry is reset per chromosome task only")
+    g5(prog, ctx)
     ctx.rule("G4", "TranscriptToGeneJoiner.count_score returns a non-zero score only under the fact that both gene strands are equal; "
                    "join_transcripts merges only above a positive threshold")
     ctx.rule("G1", "GFFPrinter.dump registers a model for printing only on a path where validate_exons(model.exon_blocks) passed; "
